@@ -1,4 +1,5 @@
 import DaskModel.Lemmas.Meta
+import DaskModel.Model.FuseSlice
 /-! # C25 — lazy array metadata matches the computed data (theorems)
 
 `lazyChunks p` is what dask reports as `.chunks` of a pipeline `p`; `blockLens p` is the length, axis by axis and block by
@@ -353,5 +354,72 @@ example : lazyChunks (.T [1, 0] (.concat 0 (.keep 0 (.ew (.leaf [[2, 1], [3]]) (
     = some [[1, 2], [1, 2]] := by decide
 example : blockLens (.T [1, 0] (.concat 0 (.keep 0 (.ew (.leaf [[2, 1], [3]]) (.leaf [[1, 2]]))) (.leaf [[2], [3]])))
     = some [[1, 2], [1, 2]] := by decide
+
+/-! ## `fuse_slice`: `x[a][b]` and `x[fuse_slice(a, b)]` are the same index map -/
+section FuseSlice
+open Dask.FuseSlice
+
+theorem fused_index (a b : Sl) (j : Nat) :
+    (fuse a b).start + (fuse a b).step * j = a.start + a.step * (b.start + b.step * j) := by
+  simp only [fuse, Nat.mul_add, Nat.mul_assoc, Nat.add_assoc]
+
+theorem lt_iff_of_step_pos (s k t c : Nat) (hs : 0 < s) : (c + s * k < c + s * t) ↔ k < t := by
+  constructor
+  · intro h
+    have : s * k < s * t := by omega
+    exact (Nat.mul_lt_mul_left hs).mp this
+  · intro h
+    have : s * k < s * t := (Nat.mul_lt_mul_left hs).mpr h
+    omega
+
+/-- **fuse_slice_index_map.** For every sequence length `n`, all non-negative slices `a` (positive step) and `b`, and
+    every position `j`: element `j` of `x[a][b]` is taken from the same source position as element `j` of
+    `x[fuse_slice(a, b)]`, and one is past the end exactly when the other is. Hence the fused `getitem` returns
+    blocks of exactly the length the chained `getitem`s return. -/
+theorem fuse_slice_index_map (n : Nat) (a b : Sl) (j : Nat) (ha : 0 < a.step) :
+    chainAt n a b j = (fuse a b).at n j := by
+  unfold chainAt Sl.at
+  simp only
+  rw [fused_index a b j]
+  generalize hK : b.start + b.step * j = K
+  cases hbs : b.stop with
+  | none =>
+    cases has : a.stop with
+    | none => simp [fuse, has, hbs, minStop]
+    | some s => simp [fuse, has, hbs, minStop]
+  | some t =>
+    have hiff := lt_iff_of_step_pos a.step K t a.start ha
+    cases has : a.stop with
+    | none =>
+      simp only [fuse, has, hbs, minStop, Option.map_some]
+      by_cases hk : K < t
+      · have := hiff.mpr hk
+        simp [hk, this]
+      · have : ¬ (a.start + a.step * K < a.start + a.step * t) := fun h => hk (hiff.mp h)
+        simp [hk, this]
+    | some s =>
+      simp only [fuse, has, hbs, minStop, Option.map_some]
+      by_cases hk : K < t
+      · have h1 := hiff.mpr hk
+        by_cases h2 : a.start + a.step * K < s
+        · have : a.start + a.step * K < min s (a.start + a.step * t) := by omega
+          simp [hk, h2, this]
+        · have : ¬ (a.start + a.step * K < min s (a.start + a.step * t)) := by omega
+          simp [hk, h2, this]
+      · have h1 : ¬ (a.start + a.step * K < a.start + a.step * t) := fun h => hk (hiff.mp h)
+        have : ¬ (a.start + a.step * K < min s (a.start + a.step * t)) := by omega
+        simp [hk, this]
+
+/-- a slice followed by an integer: `x[a][i]` is `x[a.start + i*a.step]` -/
+theorem fuse_int_index (a : Sl) (i : Nat) : fuseInt a i = a.start + a.step * i := by
+  simp [fuseInt, Nat.mul_comm]
+
+/-- the example of the seeded defect: `x[1:][:6:2]` must fuse to `x[1:7:2]` (a stop computed with the fused step would
+    give 13) -/
+example : fuse ⟨1, none, 1⟩ ⟨0, some 6, 2⟩ = ⟨1, some 7, 2⟩ := by decide
+example : fuse ⟨5, some 50, 1⟩ ⟨2, some 11, 2⟩ = ⟨7, some 16, 2⟩ := by decide
+example : (List.range 5).map (chainAt 8 ⟨1, none, 1⟩ ⟨0, some 6, 2⟩) = [some 1, some 3, some 5, none, none] := by decide
+
+end FuseSlice
 
 end Dask.C25
